@@ -917,7 +917,14 @@ func (e *Eng) specCall(fr *Frame, st *State, fn *ssa.Function, args []Val, argTa
 		}
 		return fmt.Sprintf("(%s (%s) %s)", q, strings.Join(decls, " "), bt2), false
 	case name == "spec_fresh":
+		// allocated since the state `old` refers to: the function's entry for its own clauses, the state
+		// before the call for a callee's postcondition applied at a call site
 		r := ghostKey(args[0])
+		if fr.oldSt != nil {
+			if a, ok := fr.oldSt.heap["Alloc"]; ok {
+				return tOr(tEq(r, null), app("bvuge", e.birth(r), a)), false
+			}
+		}
 		return tOr(tEq(r, null), e.freshAtEntry(r)), false
 	case name == "spec_sameslice":
 		a, aok := args[0].(*IfaceV)
